@@ -303,7 +303,7 @@ Definition vop_name (op : vop) : bytes :=
   | VSet _ _ => bs "vset" | VEmp _ _ => bs "vemp" | VEmpThrow _ => bs "vempthrow" | VCp d s => bs "vcp" ++ (if Nat.eqb d s then bs "_self" else [])
   | VMv _ _ => bs "vmv" | VSwap d s => bs "vswap" ++ (if Nat.eqb d s then bs "_self" else []) | VCc _ _ => bs "vcc" | VMc _ _ => bs "vmc"
   | VIdx _ => bs "vidx" | VHolds _ _ => bs "vholds" | VGet _ _ => bs "vget" | VGetIf _ _ => bs "vgetif" | VVis _ => bs "vvis"
-  | VVis2 _ _ => bs "vvis2" | VCmp _ _ => bs "vcmp"
+  | VVis2 _ _ => bs "vvis2" | VCmp _ _ => bs "vcmp" | VSelf _ => bs "vself"
   end.
 
 Definition spec_vseg (l' : vlist) (res : list tok) (name : bytes) (seg : list tok) : list tok :=
